@@ -54,6 +54,7 @@ def _expand(t, N, consts, cache):
                 break
         if not ok:
             r = t
+            cache.setdefault("__unexpanded__", []).append(t.get_id())
         else:
             body = t.body()
             insts = []
@@ -97,7 +98,10 @@ def search_text(smt2, N=4, timeout_ms=20000):
     s = z3.Solver()
     s.set("timeout", timeout_ms)
     for f in asserts:
-        s.add(_expand(f, N, consts, cache))
+        g = _expand(f, N, consts, cache)
+        if z3.is_quantifier(g) and g.is_forall():
+            continue  # a universal fact that cannot be instantiated finitely is dropped (weakening; candidates are replayed)
+        s.add(g)
     for q in seqs:
         s.add(z3.Length(q) <= N)
     r = s.check()
